@@ -114,7 +114,7 @@ theorem step_ok {n : Net} {op : Op} (h : Ok n)
     cases hps : n.paths with
     | nil => simpa [hps] using h
     | cons p rest =>
-      simp only
+      simp only [sent, hps]
       rw [hps] at hd
       simp only at hd
       intro q hq hv
